@@ -109,4 +109,14 @@ CHECKS = {
           "parts with divisions whose lcm often exceeds all, missing staves, directions, as list/group/nested/Score x 3 modes.",
   "note": "Trusted: gen_score aligned generator, vmon/refmodels/pitch.py. Classes the code drops beyond the documented list are don't-care.",
  },
+ "C06": {
+  "technique": "post-condition hooks on save_performance_midi / load_performance_midi / adjust_time vs an independent exact (Fraction) MIDI reader and nearest-tick model",
+  "text": "Every save_performance_midi call is re-parsed and compared per track with a snapshot of the argument (ticks must be the "
+          "exact nearest tick, pitch/velocity/channel/track, controls, programs, signatures, meta events); every "
+          "load_performance_midi result is compared with an independent pass over the mido messages that integrates all tempo "
+          "changes of all tracks with Fractions, pairs note-ons with the next off of channel and pitch and orders ids. Workload: "
+          "performances as Performance / part / list, several tracks, half-tick times, raw MIDI files with tempo events in any "
+          "track, zero-velocity offs, the fixture files, PYTHONHASHSEED sweep on thorough.",
+  "note": "Trusted: vmon/refmodels/midi_model.py, mido. Exact .5 ticks accept both neighbours; touching notes in non-chronological list order are don't-care.",
+ },
 }
